@@ -77,7 +77,7 @@ def info_obs(ri, folder, version):
     return [canon_info(ri, folder, version), values_obs(ri.inputs), values_obs(ri.defaults)]
 
 
-def reload_obs(folder, out_names):
+def reload_obs(folder, out_names, coord_names=()):
     """One complete reload: load_outputs per output, RunInfo.load, load_xarray_dataset (structure)."""
     import pipefunc
     from harness import mapsym
@@ -102,7 +102,9 @@ def reload_obs(folder, out_names):
         ds = load_xarray_dataset(run_folder=folder)
         if names is None:
             names = sorted(out_names)
-        xr = ["ok", [[n, [str(d) for d in ds[n].dims] if n in ds.variables else ["<absent>"]] for n in names]]
+        xr = ["ok", [[n, [str(d) for d in ds[n].dims] if n in ds.variables else ["<absent>"]] for n in names],
+              # coordinate values of the 1-D root inputs (taken by pipefunc from the reloaded RunInfo.inputs)
+              [[n, mapsym.arr_obs(ds[n].to_numpy()) if n in ds.coords else None] for n in coord_names]]
     except Exception as e:  # noqa: BLE001
         xr = err(e)
     return [outs, info, xr]
@@ -133,11 +135,11 @@ def listing(folder):
     return sorted(out)
 
 
-def two_loads(folder, out_names):
+def two_loads(folder, out_names, coord_names=()):
     """[load 1, load 2 or "same", folder unchanged]"""
     before = snapshot(folder)
-    l1 = reload_obs(folder, out_names)
-    l2 = reload_obs(folder, out_names)
+    l1 = reload_obs(folder, out_names, coord_names)
+    l2 = reload_obs(folder, out_names, coord_names)
     after = snapshot(folder)
     return [l1, "same" if strip(l2) == strip(l1) else l2, before == after]
 
